@@ -152,7 +152,7 @@ func runPRATT(c *Ctx, r *Result, rule string) {
 		if len(fs) == 1 && fs[0] == parseNameObj {
 			o.Verdict, o.Reason = Discharged, "in prefix position the word "+w+" is parsed as a field name"
 		} else {
-			o.Verdict, o.Reason = Finding, "the word " + w + " is not a field name where an operand is expected"
+			o.Verdict, o.Reason = Finding, "the word "+w+" is not a field name where an operand is expected"
 		}
 		r.Add(o)
 	}
